@@ -400,3 +400,74 @@ var fmtVerbSkew = map[string]string{
 }
 
 var _ = types.Typ
+
+// FMT.5: temporary overrides of formatter flags are restored on every path.
+// The flags live in the formatter shared by all verbs of a directive (and by
+// every element when a verb formats a sequence), so an override that is not
+// undone leaks into the rest of the directive.
+func ruleFMT5(c *Ctx) {
+	w := c.W
+	p := w.Root
+	ff := p.Types.Scope().Lookup("fmtFlags")
+	if ff == nil {
+		c.anchor("type fmtFlags")
+		return
+	}
+	st, _ := ff.Type().Underlying().(*types.Struct)
+	flag := map[*types.Var]bool{}
+	for i := 0; st != nil && i < st.NumFields(); i++ {
+		flag[st.Field(i)] = true
+	}
+	parser := map[string]bool{"pp.doFormat": true, "formatter.clearFlags": true, "formatter.init": true}
+	n := 0
+	w.AllFuncDecls(p, func(fd *ast.FuncDecl) {
+		if parser[funcName(fd)] {
+			return
+		}
+		// saved copies: old := f.X
+		saved := map[types.Object]*types.Var{}
+		ast.Inspect(fd.Body, func(nd ast.Node) bool {
+			as, ok := nd.(*ast.AssignStmt)
+			if !ok || as.Tok != token.DEFINE || len(as.Lhs) != 1 || len(as.Rhs) != 1 {
+				return true
+			}
+			if f, _ := FieldSel(p, as.Rhs[0]); f != nil && flag[f] {
+				if id, ok := as.Lhs[0].(*ast.Ident); ok {
+					saved[p.TypesInfo.Defs[id]] = f
+				}
+			}
+			return true
+		})
+		isRestore := func(s ast.Stmt, f *types.Var) bool {
+			as, ok := s.(*ast.AssignStmt)
+			if !ok || len(as.Lhs) != 1 || len(as.Rhs) != 1 {
+				return false
+			}
+			lf, _ := FieldSel(p, as.Lhs[0])
+			if lf != f {
+				return false
+			}
+			id, ok := ast.Unparen(as.Rhs[0]).(*ast.Ident)
+			return ok && saved[p.TypesInfo.Uses[id]] == f
+		}
+		inspectWithStack(fd.Body, func(nd ast.Node, stack []ast.Node) bool {
+			as, ok := nd.(*ast.AssignStmt)
+			if !ok || len(as.Lhs) != 1 || len(as.Rhs) != 1 {
+				return true
+			}
+			f, _ := FieldSel(p, as.Lhs[0])
+			if f == nil || !flag[f] || isRestore(as, f) {
+				return true
+			}
+			n++
+			cont, _ := contStmts(stack)
+			r := pathSeq(cont, func(s ast.Stmt) bool { return isRestore(s, f) })
+			// reaching the end of the function without restoring is also a failure
+			c.check(r == pHit, fmt.Sprintf("flag-restored/%s/%s#%d", funcName(fd), f.Name(), n), as, "temporary override of flag "+f.Name()+" is undone on every path", "flag "+f.Name()+" is overridden in "+funcName(fd)+" and not restored from its saved value on every path: the override leaks into the remaining elements/verbs formatted with the same formatter")
+			return true
+		})
+	})
+	if n < 5 {
+		c.fail("flag-restored/count", nil, fmt.Sprintf("expected >= 5 temporary flag overrides, found %d", n))
+	}
+}
